@@ -16,7 +16,7 @@ THOROUGH_DESIGN = {
     'C09': [('MC_Cleaner_epochs.cfg', True), ('MC_Cleaner_C09_thorough.cfg', False)],
 }
 # actions that do not matter for a property (not required to be taken by its design checks)
-IRRELEVANT = {'C08': set(), 'C09': {'MCNewReader', 'MCDrain'}}
+IRRELEVANT = {'C08': set(), 'C09': {'MCNewReader', 'MCDrain', 'MCNewRev', 'MCRevRead'}}
 
 
 def action_counts(out):
@@ -61,7 +61,38 @@ def features(beh):
     and what happens between snapshot and swap"""
     feats = set()
     steps = [st['last'] for st in beh[1:]]
+    # persistent reverse readers overtaken by a clean: created before / inside the window of a clean,
+    # read partially, then read again after the clean (or after its swap)
+    rev, inwin = {}, False
+    for a in steps:
+        k = a['a']
+        if k == 'CleanBegin':
+            inwin = True
+        if k in ('Clean', 'CleanBegin', 'CleanEnd'):
+            for v in rev.values():
+                v[k] = v.get(k, 0) + 1
+        if k == 'CleanEnd':
+            inwin = False
+        if k == 'Reopen':
+            rev = {}
+        if k == 'NewRev':
+            rev[a['r']] = {'win': inwin, 'reads': 0, 'c': a['c']}
+        if k == 'RevRead' and a['r'] in rev:
+            v = rev[a['r']]
+            feats.add(('rev', v['win'], v['c'], a['all'], min(v['reads'], 1), min(v.get('Clean', 0), 1),
+                       min(v.get('CleanBegin', 0), 1), min(v.get('CleanEnd', 0), 1), inwin))
+            v['reads'] += 1
+            if a['all']:
+                del rev[a['r']]
     for i, a in enumerate(steps):
+        if a['a'] == 'CleanFail':
+            # transient deletion error: which doomed segment, how many are doomed, what happens before the retry
+            between = []
+            for b in steps[i + 1:]:
+                if b['a'] == 'Clean':
+                    break
+                between.append(b['a'])
+            feats.add(('fail', a['k'], a['cls']['d'], tuple(between[:2]), tuple(a['cls']['lim'])))
         if a['a'] not in ('Clean', 'CleanBegin'):
             continue
         c = a['cls']
@@ -223,6 +254,11 @@ def run_check(rep, tier, seed, replay, prop, names, nontrivial, rule, quick_num=
     def lap(what):
         core.log('[%s] %s done at %.0fs' % (prop, what, time.time() - t0))
 
+    if replay and 'route' in replay['replay']:
+        run_route(rep, tier, seed, replay['replay']['route'])
+        rep.cov['rule'] = 'replay of a saved configuration-route stimulus'
+        rep.cov['samples'] = replay['replay']['route'][:1]
+        return
     if replay:
         behaviours = replay['replay']['behaviours']
         with core.scratch(sub) as d:
@@ -307,7 +343,69 @@ def run_check(rep, tier, seed, replay, prop, names, nontrivial, rule, quick_num=
                 n += 1
         return n
     rep.cov['persistent_reader_drains_after_a_clean'] = sum(drains_after_clean(b) for b in behaviours)
+    def rev_overtaken(b):
+        alive, n = {}, 0
+        for s in b['steps']:
+            if s['a'] == 'NewRev':
+                alive[s['r']] = False
+            if s['a'] in ('Clean', 'CleanBegin'):
+                alive = {k: True for k in alive}
+            if s['a'] == 'Reopen':
+                alive = {}
+            if s['a'] == 'RevRead' and alive.pop(s['r'], False):
+                n += 1
+        return n
+    rep.cov['reverse_reader_reads_after_a_clean_overtook_it'] = sum(rev_overtaken(b) for b in behaviours)
+    rep.cov['reverse_readers_created_between_snapshot_and_swap'] = sum(
+        1 for b in behaviours for i, s in enumerate(b['steps'])
+        if s['a'] == 'NewRev' and any(x['a'] == 'CleanBegin' for x in b['steps'][:i])
+        and [x['a'] for x in b['steps'][:i] if x['a'] in ('CleanBegin', 'CleanEnd')][-1] == 'CleanBegin')
+    rep.cov['cleans_with_injected_deletion_error_and_retry'] = sum(
+        1 for b in behaviours for s in b['steps'] if s['a'] == 'CleanFail')
     rep.cov['rule'] = rule
     rep.cov['samples'] = behaviours[:2]
+    if prop == 'C09':
+        # 5. the route by which the configured limits reach the cleaner (server defaults x stream overrides)
+        run_route(rep, tier, seed)
+        lap('configuration route')
     rep.assumptions += ['single appender (lock-step driver); Clean() parked at the clean.before_swap gate',
                         'TLC evaluates the TLA+ predicates correctly']
+
+
+def run_route(rep, tier, seed, replay=None):
+    """configuration route (spec/CleanerConfig.tla): server-wide defaults x per-stream overrides (absent /
+    explicit 0 / value) -> what reaches the commit log options and the delete cleaner, on a real Server"""
+    prop = rep.prop
+    if replay is not None:
+        behaviours = replay
+    else:
+        num = 40 if tier == 'quick' else 300
+        sims = core.tlc_simulate('MC_CleanerConfig.tla', 'Sim_CleanerConfig.cfg', num, 13, seed, timeout=600)
+        behaviours = []
+        for i, b in enumerate(sims):
+            steps = [{'a': 'Route', 'def': st['last']['def'], 'ovr': st['last']['ovr']} for st in b[1:]]
+            if steps:
+                behaviours.append({'id': 100000 + i, 'cfg': {}, 'steps': steps})
+    with core.scratch('route') as d:
+        stim, trace = os.path.join(d, 'stim.json'), os.path.join(d, 'trace.ndjson')
+        core.write_json(stim, {'behaviours': behaviours})
+        rc, out, wall = core.go_test('server', '^TestVerifC09Route$', {'VERIF_STIMULI': stim, 'VERIF_TRACE_OUT': trace},
+                                     timeout=900, subs=['c09'])
+        if rc != 0 or not os.path.exists(trace):
+            raise core.Inconclusive('route harness failed rc=%s: %s' % (rc, out[-3000:]))
+        res = core.tlc_trace('Trace_CleanerConfig.tla', 'Trace_CleanerConfig.cfg', trace, timeout=600)
+    by_id = {b['id']: b for b in behaviours}
+    seen = set()
+    for kind, tid, line, action, name in res['fails']:
+        if (tid, name) in seen:
+            continue
+        seen.add((tid, name))
+        rep.classify('%s|%s|%s' % (prop, name, action),
+                     'configuration route, behaviour %s line %d: %s' % (tid, line, name), {'route': [by_id[tid]]})
+    combos = {core.sha([s['def'], s['ovr']]) for b in behaviours for s in b['steps']}
+    rep.cov['route_streams_created'] = sum(len(b['steps']) for b in behaviours)
+    rep.cov['route_distinct_default_override_combinations'] = len(combos)
+    rep.cov['route_with_explicit_zero_override'] = sum(
+        1 for b in behaviours for s in b['steps']
+        if 0 in (s['ovr']['age'], s['ovr']['msgs'], s['ovr']['bytes']) or s['ovr']['compact'] == 'false')
+    rep.cov['route_trace_lines_validated'] = res['validated']
